@@ -18,7 +18,10 @@ THEOREMS = ["gibbs_block_invariant", "sweep_invariant", "categorical_gibbs_rever
             "csmc_corrected_invariant", "csmc_corrected_invariant_final_resample", "corrected_kernel_is_modified_target",
             "subtreeMove_factors", "subtree_given_exec", "subtree_conditional_invariant_abstract",
             "subtree_conditional_invariant_E", "graftBack_restrict", "subtree_conditional_invariant",
-            "subtree_region_ok", "subtree_conditional_invariant_at_region"]
+            "subtree_region_ok", "subtree_conditional_invariant_at_region",
+            # the whole sweep (particle Gibbs, data-point scans, prune-regraft moves) on one state space
+            "sweep_state_space", "sweep_kernels_invariant", "full_sweep_invariant_E", "full_sweep_invariant",
+            "full_sweep_invariant_c01", "chain_invariant"]
 BUDGET = {"quick": 170, "thorough": 1500}
 RULE = ("moves = data-point Gibbs scan, prune-regraft, random-subtree particle Gibbs, all built by run.setup_samplers; "
         "configurations = (data set of 2..3 points (4 sampled in thorough), alpha, outlier modelling off/on, and for the subtree "
